@@ -131,7 +131,17 @@ def run(ctx):
     ok = fp.parse(F5C_SRC, std="f2003", ignore_comments=False)
     if ok.kind == "tree" and "! c0" not in str(ok.tree):
         failures.append(("comment_before_implicit_main_lost", "recorded finding still present", dict(source=F5C_SRC)))
-    e2e = dict(cases=len(jobs) + 1, distinct=len(set(jobs)), failures=failures,
+    # the statement catalogue with a comment line in front of every line and after the last one
+    import catprod
+    cj = [(("f2003", "f2008")[k % 2], b, src, "comment") for k, (b, src) in enumerate(catprod.sources(ctx.quick, ctx.seed))]
+    ncat = 0
+    for job, (st, r) in zip(cj, pool.pmap(catprod.check_insert, cj, chunksize=8)):
+        if st != "ok":
+            failures.append(("harness_error", r[:300], dict(job=list(job))))
+        else:
+            ncat += r[0]
+            failures += r[1]
+    e2e = dict(cases=len(jobs) + 1 + ncat, distinct=len(set(jobs)) + ncat, failures=failures, catalogue_programs=ncat,
                rule="generated programs x comment placements (full-line before/after/between units and inside every "
                     "construct, trailing, between continuation lines; texts with quotes, '!', '&', ';', directive "
                     "forms): comments(tree)==K in order, position in regenerated text, tree(P+K,ignore)==tree(P), "
@@ -145,6 +155,9 @@ def run(ctx):
 
 def replay(ctx, data):
     import fp
+    if "catalogue_insert" in data:
+        import catprod
+        return not catprod.check_insert((data.get("std", "f2003"), "", data["canonical"], data["catalogue_insert"]))[1]
     src, std = data["source"], data.get("std", "f2003")
     keep = fp.parse(src, std=std, ignore_comments=False)
     ign = fp.parse(src, std=std, ignore_comments=True)
